@@ -10,6 +10,7 @@ verdict: the real assembler's output must be path-equivalent to the label
 import json
 import os
 
+import polfam
 import vlib
 
 
@@ -47,6 +48,8 @@ CHECK_DEADLOCK FALSE
 
 
 def replay_case(ctx, path):
+    if "policy" in json.load(open(path)).get("case", {}) or "kind" in json.load(open(path)):
+        return polfam.replay_one(ctx, path)
     bindir = ctx.harness()
     rc, out, err = ctx.run([os.path.join(bindir, "asmreplay"), "-replay", os.path.abspath(path)], timeout=120)
     if rc != 0:
@@ -144,5 +147,36 @@ def check(ctx, replay=None):
             ctx.drift({"trace": "recorded step events are not a behaviour of Asm.tla (%s); step model no longer describes the code" % tr["violated"]})
         else:
             ctx.cov["traces_validated_against_impl"] += traced
+    # 4. "the meaning of a compiled policy does not depend on its size": one family of policies (CompileScopes longlist / shortlist:
+    #    the same shapes, the same events) at sizes 20..60 instructions and at 260..1400 instructions (1..5 bridges, the
+    #    conditional group last). A wrong decision is C06's only when the small twin of the family decides correctly:
+    #    a compiler defect that does not depend on the size belongs to C01-C04.
+    kw = dict(W=8, X32Bit=512, NSys=300)
+    js, outs = [], {}
+    for sc in ("shortlist", "longlist"):
+        j, outs[sc] = polfam.gen_job(ctx, sc, stride=1, offset=0, le=ctx.seed % 2 == 0, name=sc, with_model=True, **kw)
+        js.append(j)
+    if thorough:
+        js.append(polfam.mc_job("longlist", ["DecisionOK"], name="MC_longlist", MaxSkip=255, **kw))
+    for r in ctx.tlc_many(js, parallel=3):
+        if r["violated"]:
+            raise vlib.Machinery("TLC: %s violated in %s: the specification of the unchanged design does not satisfy its own invariant" % (r["violated"], r["name"]))
+    size_kinds = {"decision", "foreign", "x32", "invalid"}
+    res = {}
+    for sc in ("shortlist", "longlist"):
+        s, f = polfam.replay(ctx, outs[sc], concs=3 if thorough else 2, expand=1, tag=sc)
+        res[sc] = (s, [x for x in f if x["kind"] in size_kinds])
+        polfam.account(ctx, s, [], mine=set(), decision_owner="-")
+    if res["shortlist"][0]["programs_over_255"] != 0 or res["longlist"][0]["programs_over_255"] == 0:
+        raise vlib.Machinery("the size family is not what it claims: shortlist has %d programs above 255 instructions, longlist %d"
+                             % (res["shortlist"][0]["programs_over_255"], res["longlist"][0]["programs_over_255"]))
+    small_bad, big_bad = res["shortlist"][1], res["longlist"][1]
+    if big_bad and not small_bad:
+        for f in big_bad:
+            f = dict(f)
+            f["how"] = "./check C06 --replay <this file>"
+            ctx.violation("the meaning of a policy depends on its size (%s): %s; the same shapes at 20..60 instructions decide every event correctly" % (f["kind"], f["why"]), f)
+    elif big_bad:
+        ctx.note("policies above 255 instructions decide wrongly, and so do their small twins: not a size effect (C01-C04 own it): %s" % big_bad[0]["why"])
     ctx.assumptions += ["conditions are uninterpreted: every original jump carries a unique operand, so path equivalence is equality of unfoldings",
                         "exhaustiveness holds for MaxSkip 1..3; at the real limit 255 programs are generated (blow-ups of every enumerated shape, random), not enumerated"]
